@@ -189,6 +189,7 @@ def run(ctx):
     field_and_json(ctx, [b for b in blobs if not b[0].startswith('gen')])
     edits(ctx)
     synthetic(ctx)
+    typed_corr(ctx, [b for b in blobs if not b[0].startswith('gen')])
     size_forms(ctx)
 
 
@@ -269,6 +270,107 @@ def synthetic(ctx):
                 ctx.nontriv(('syn', name, hash(data)))
         except Exception as e:  # noqa
             ctx.violation('%s: JSON round trip raised %s: %s' % (name, type(e).__name__, str(e)[:80]), inp)
+
+
+TYPED = {b'mdhd': 0, b'mvhd': 1, b'tkhd': 2, b'mehd': 3, b'tfdt': 4, b'mfhd': 5, b'trex': 6, b'tfhd': 7, b'trun': 8, b'saio': 9, b'tenc': 10,
+         b'pssh': 11}
+# index into the model's value list -> library attribute (numeric fields only; times are datetimes in the library)
+FIELD_MAP = {
+    b'mdhd': {0: 'version', 4: 'timescale', 5: 'duration'},
+    b'mvhd': {0: 'version', 4: 'timescale', 5: 'duration', 11: 'next_track_id'},
+    b'tkhd': {0: 'version', 4: 'track_id', 6: 'duration', 8: 'layer', 9: 'alternate_group'},
+    b'mehd': {0: 'version', 2: 'fragment_duration'},
+    b'tfdt': {0: 'version', 2: 'base_media_decode_time'},
+    b'mfhd': {2: 'sequence_number'},
+    b'trex': {2: 'track_id', 3: 'default_sample_description_index', 4: 'default_sample_duration', 5: 'default_sample_size', 6: 'default_sample_flags'},
+    b'tfhd': {1: 'flags', 2: 'track_id'},
+    b'trun': {1: 'flags', 2: 'sample_count'},
+    b'tenc': {4: 'iv_size'},
+    b'pssh': {0: 'version'},
+}
+
+
+def typed_params(typ, payload):
+    """(version, flags, n1, n2) read straight from the bytes"""
+    version, flags = payload[0], int.from_bytes(payload[1:4], 'big')
+    n1 = n2 = 0
+    if typ == b'trun':
+        n1 = int.from_bytes(payload[4:8], 'big')
+    elif typ == b'saio':
+        pos = 4 + (8 if flags & 1 else 0)
+        n1 = int.from_bytes(payload[pos:pos + 4], 'big')
+    elif typ == b'pssh':
+        pos = 20
+        if version > 0:
+            n1 = int.from_bytes(payload[pos:pos + 4], 'big')
+            pos += 4 + 16 * n1
+        n2 = int.from_bytes(payload[pos:pos + 4], 'big')
+    return version, flags, n1, n2
+
+
+def typed_corr(ctx, blobs):
+    """typed field codecs: Model/FieldModel.v decodes the payload of every typed box (fixtures + synthetic) with the layout
+    chosen from its version / flags / counts; the values must equal the library's parsed fields and re-encode to the bytes"""
+    from .. import specboxes
+    items = [(n, d) for n, d in blobs]
+    items += [(n, d) for n, d, _ in specboxes.gen(ctx.rng, 3 if ctx.quick() else 60)]
+    reqs, meta = [], []
+    for name, data in items:
+        try:
+            boxes = boxwalk.parse(data)
+            lib = load(data, False, iv_size=iv_for(name) if ':' in name else 8)
+        except Exception:  # noqa
+            continue
+        by_pos = {}
+        stack = list(lib.children)
+        while stack:
+            a = stack.pop()
+            by_pos[a.position] = a
+            stack.extend(a.children or [])
+        flat, stack = [], list(boxes)
+        while stack:
+            b = stack.pop()
+            flat.append(b)
+            stack.extend(b.children)
+        for b in flat:
+            if b.type not in TYPED or len(b.payload) < 4 or len(b.payload) > 4000:
+                continue
+            version, flags, n1, n2 = typed_params(b.type, b.payload)
+            if n1 > 500 or n2 > 4000:
+                continue
+            atom = by_pos.get(b.start)
+            fields = {}
+            if atom is not None:
+                for idx, attr in FIELD_MAP.get(b.type, {}).items():
+                    try:
+                        v = getattr(atom, attr)
+                        fields[idx] = int(v)
+                    except Exception:  # noqa
+                        pass
+            reqs.append([3, TYPED[b.type], version, flags, n1, n2, list(b.payload)])
+            meta.append(({'blob': name, 'box': b.type.decode(), 'at': b.start, 'version': version, 'flags': flags}, list(b.payload), fields))
+    res = common.run_model_parallel(4, reqs)
+    ok = True
+    for (inp, payload, fields), m in zip(meta, res):
+        ctx.count('corr:typed-fields')
+        if not m:
+            ok = False
+            ctx.disagree('typed decode', inp, 'model rejects the payload', 'library parses it')
+            continue
+        vals, rest, pre = m[0], m[1], m[2]
+        if rest != [] or pre != [payload]:
+            ok = False
+            ctx.disagree('typed layout', inp, {'left over': len(rest), 're-encodes': pre == [payload]}, 'whole payload, byte exact')
+            continue
+        for idx, want in fields.items():
+            got = vals[idx][1] if idx < len(vals) and vals[idx][0] == 0 else None
+            if got != want:
+                ok = False
+                ctx.disagree('typed field %d' % idx, inp, got, want)
+                break
+        else:
+            ctx.nontriv(('typed', inp['blob'], inp['at']))
+    ctx.oblige('correspondence:typed box fields(mp4.py)-vs-FieldModel.layout_of', ok)
 
 
 def check_nesting(data):
